@@ -144,3 +144,27 @@ Proof. vm_compute. repeat split; reflexivity. Qed.
 Theorem crash_instead_of_drop_keeps_files :
   handle_files_exist (run (init_world 60 1000) (firstn 11 d11_history ++ [OCrash 0; OGc])) 1 = true.
 Proof. vm_compute. reflexivity. Qed.
+
+Lemma d11_files_false : handle_files_exist (run (init_world 60 1000) d11_history) 1 = false.
+Proof. vm_compute. reflexivity. Qed.
+Lemma d11_handle_some : handle_dir (run (init_world 60 1000) d11_history) 1 = Some 0.
+Proof. vm_compute. reflexivity. Qed.
+Lemma d11_no_retain : forall d ids, In (ORetain d ids) d11_history -> False.
+Proof.
+  intros d ids H. unfold d11_history in H. cbn [In] in H.
+  repeat (destruct H as [H|H]; [discriminate H|]). exact H.
+Qed.
+
+Definition retained_files_exist_full (mem wm : N) : Prop :=
+  forall ops id, (forall d ids, In (ORetain d ids) ops -> In id ids) ->
+    handle_dir (run (init_world mem wm) ops) id <> None -> handle_files_exist (run (init_world mem wm) ops) id = true.
+
+Theorem full_statement_refuted : ~ retained_files_exist_full 60 1000.
+Proof.
+  intro H.
+  assert (handle_files_exist (run (init_world 60 1000) d11_history) 1 = true) as E.
+  { apply H.
+    - intros d ids HI. exfalso. exact (d11_no_retain d ids HI).
+    - rewrite d11_handle_some. discriminate. }
+  rewrite d11_files_false in E. discriminate E.
+Qed.
